@@ -309,3 +309,101 @@ def executes_before(func, a, b):
         if k == "BinaryOperator" and n.get("opcode") in ("&&", "||") and nxt is not kids(n)[0]:
             return False
     return True
+
+
+def induction_vars(cx, func, loop):
+    """For a for/while loop: {name: (canonical entry value, step per iteration)} for every variable that the loop
+    advances by a constant once per iteration (i++, --p, v += 2, v = v - 1), unconditionally in the body or in the
+    increment expression; and the guard as (name, op, canonical bound) if it compares such a variable, else None."""
+    from .astutil import int_value
+    ch = kids(loop)
+    if loop["kind"] == "ForStmt":
+        init, cond, inc, body = ch[0], ch[2], ch[3], ch[4]
+    else:
+        init, cond, inc, body = None, ch[0], None, ch[1]
+    steps = {}
+    counts = {}
+
+    def note(node, conditional):
+        for y in ([node] if node is not None else []):
+            pass
+        return
+    def scan(n, conditional):
+        k = n["kind"]
+        if k in ("IfStmt", "ConditionalOperator", "ForStmt", "WhileStmt", "DoStmt", "SwitchStmt"):
+            for c in kids(n):
+                scan(c, True)
+            return
+        t, d = None, None
+        if k == "UnaryOperator" and n.get("opcode") in ("++", "--"):
+            t, d = strip(kids(n)[0], casts=True), (1 if n["opcode"] == "++" else -1)
+        elif k == "CompoundAssignOperator" and n.get("opcode") in ("+=", "-="):
+            v = int_value(strip(kids(n)[1], casts=True))
+            t, d = strip(kids(n)[0], casts=True), (None if v is None else (v if n["opcode"] == "+=" else -v))
+        elif k == "BinaryOperator" and n.get("opcode") == "=":
+            t = strip(kids(n)[0], casts=True)
+            r = strip(kids(n)[1], casts=True)
+            d = None
+            if t["kind"] == "DeclRefExpr" and r["kind"] == "BinaryOperator" and r.get("opcode") in ("+", "-"):
+                a, b = strip(kids(r)[0], casts=True), strip(kids(r)[1], casts=True)
+                v = int_value(b)
+                if a["kind"] == "DeclRefExpr" and a["ref"]["id"] == t["ref"]["id"] and v is not None:
+                    d = v if r["opcode"] == "+" else -v
+        if t is not None and t["kind"] == "DeclRefExpr":
+            nm = t["ref"]["name"]
+            counts[nm] = counts.get(nm, 0) + 1
+            steps[nm] = None if (conditional or d is None) else d
+            return
+        for c in kids(n):
+            scan(c, conditional)
+    if body is not None:
+        scan(body, False)
+    if inc is not None and inc["kind"] != "Null":
+        scan(inc, False)
+    out = {}
+    for nm, d in steps.items():
+        if d is None or counts.get(nm) != 1:
+            continue
+        entry = None
+        if init is not None and init["kind"] != "Null":
+            for x in walk(init):
+                if x["kind"] == "VarDecl" and x.get("name") == nm and kids(x):
+                    entry = cx.canon(kids(x)[0])
+                if x["kind"] == "BinaryOperator" and x.get("opcode") == "=" and render(strip(kids(x)[0], casts=True)) == nm:
+                    entry = cx.canon(kids(x)[1])
+        if entry is None:
+            # declared before the loop with an initialiser and not written in between
+            for x in walk(func.body):
+                if x["kind"] == "VarDecl" and x.get("name") == nm and kids(x):
+                    entry = cx.canon(kids(x)[0])
+        if entry is not None:
+            out[nm] = (entry, d)
+    guard = None
+    if cond is not None and cond["kind"] != "Null":
+        c0 = strip(cond, casts=True)
+        if c0["kind"] == "BinaryOperator" and c0.get("opcode") in ("<", "<=", ">", ">=", "!="):
+            a, b = strip(kids(c0)[0], casts=True), strip(kids(c0)[1], casts=True)
+            op = c0["opcode"]
+            if b["kind"] == "DeclRefExpr" and b["ref"]["name"] in out and not (a["kind"] == "DeclRefExpr" and a["ref"]["name"] in out):
+                a, b = b, a
+                op = {"<": ">", "<=": ">=", ">": "<", ">=": "<=", "!=": "!="}[op]
+            if a["kind"] == "DeclRefExpr" and a["ref"]["name"] in out:
+                guard = (a["ref"]["name"], op, cx.canon(b))
+    return out, guard
+
+
+def trip_count(ivars, guard):
+    """canonical trip count string of a loop with induction variables, for the common counting forms, else None"""
+    if guard is None:
+        return None
+    nm, op, bound = guard
+    entry, d = ivars[nm]
+    if d == 1 and op in ("<", "!=") and entry == "0":
+        return bound
+    if d == 1 and op == "<=" and entry == "1":
+        return bound
+    if d == -1 and op in (">", "!=") and bound == "0":
+        return entry
+    if d == -1 and op == ">=" and bound == "1":
+        return entry
+    return None
